@@ -1199,6 +1199,36 @@ def integer_text_is_decimal(ctx, tag):
     ctx.floor(tag + "_integer_conversions", 5, "integer text conversions in oomd's own code")
 
 
+
+def new_helper_return_values(ctx, f, expr_node):
+    """If expression `expr_node` of f is a call of a project function that the reference tree does not have (a NEW helper, see
+    analysis/inline.py) with a body, return [(helper, return node, text)] - the helper's return expressions expanded (Expander) with its
+    parameters replaced by the caller's (expanded) arguments; otherwise None.  Lets a provenance rule look THROUGH a helper with several
+    exits instead of giving up: every exit has to satisfy what the rule asks of the value."""
+    from ..inline import known_functions
+    P = ctx.prog
+    n = f.nodes[f.strip(expr_node)]
+    if n.get("k") != "call" or not n.get("cusr"):
+        return None
+    kn = known_functions()
+    hs = [P.fns[u] for u in P.resolve(n["cusr"]) if u in P.fns and P.fns[u].file.startswith("oomd/")]
+    if len(hs) != 1 or kn is None or plain(hs[0].d.get("qname", "")) in kn[0]:
+        return None
+    h = hs[0]
+    Xf, Xh = Expander(P, f), Expander(P, h)
+    args = [Xf(a) for a in n.get("args", [])]
+    out = []
+    for r in returns(h):
+        if "val" not in h.nodes[r]:
+            continue
+        t = Xh(h.nodes[r]["val"])
+        for k, p_ in enumerate(h.params):
+            if k < len(args):
+                t = re.sub(r"param:%s(?![\w])" % re.escape(p_["name"]), lambda m_, a_=args[k]: a_, t)
+        out.append((h, r, t))
+    return out or None
+
+
 def inlined_condition_paths(fn, cn, call_node, want):
     """For a condition that is a folded helper call (`if (!helper(x))`, node class InlinedCall with its exits recorded): the lexical
     facts under which the folded body makes the condition evaluate to `want` - one list of (key, polarity) per such exit.  An exit that
